@@ -20,6 +20,47 @@ TRIAGE = {
  "src/crypto.cpp:428": ("equivalent", "initial value of is_ccmp_ in a constructor that assigns it unconditionally a few lines later"),
  "src/crypto.cpp:274": ("equivalent", "upper_byte(join_bytes(a, b)) is a, whatever b is"),
  "src/sniffer.cpp:315": ("outside every property", "live-capture Sniffer::init (needs a network interface): only the file sniffer is within C17"),
+ 'src/dot11/dot11_mgmt.cpp:327': ('not compiled on this host', 'big-endian (#else) branch of hand-packed bit-field / byte-order code: not compiled on x86-64 (DESIGN section 8)'),
+ 'src/dot11/dot11_mgmt.cpp:328': ('not compiled on this host', 'big-endian (#else) branch of hand-packed bit-field / byte-order code: not compiled on x86-64 (DESIGN section 8)'),
+ 'src/dot11/dot11_mgmt.cpp:336': ('not compiled on this host', 'big-endian (#else) branch of hand-packed bit-field / byte-order code: not compiled on x86-64 (DESIGN section 8)'),
+ 'src/dot11/dot11_control.cpp:231': ('not compiled on this host', 'big-endian (#else) branch of hand-packed bit-field / byte-order code: not compiled on x86-64 (DESIGN section 8)'),
+ 'src/dns.cpp:426': ('not compiled on this host', 'big-endian (#else) branch of hand-packed bit-field / byte-order code: not compiled on x86-64 (DESIGN section 8)'),
+ 'src/utils/radiotap_parser.cpp:125': ('not compiled on this host', 'big-endian (#else) branch of hand-packed bit-field / byte-order code: not compiled on x86-64 (DESIGN section 8)'),
+ 'src/utils/radiotap_parser.cpp:109': ('not compiled on this host', 'big-endian (#else) branch of hand-packed bit-field / byte-order code: not compiled on x86-64 (DESIGN section 8)'),
+ 'src/utils/radiotap_parser.cpp:115': ('not compiled on this host', 'big-endian (#else) branch of hand-packed bit-field / byte-order code: not compiled on x86-64 (DESIGN section 8)'),
+ 'src/utils/radiotap_parser.cpp:118': ('not compiled on this host', 'big-endian (#else) branch of hand-packed bit-field / byte-order code: not compiled on x86-64 (DESIGN section 8)'),
+ 'src/utils/radiotap_parser.cpp:112': ('not compiled on this host', 'big-endian (#else) branch of hand-packed bit-field / byte-order code: not compiled on x86-64 (DESIGN section 8)'),
+ 'src/ip_address.cpp:95': ('not compiled on this host', 'Windows-only branch'),
+ 'src/ipv6_address.cpp:122': ('not compiled on this host', 'Windows-only branch'),
+ 'src/sniffer.cpp:351': ('outside every property', 'live capture / packet sending (needs a network interface)'),
+ 'src/sniffer.cpp:504': ('outside every property', 'live capture / packet sending (needs a network interface)'),
+ 'src/sniffer.cpp:330': ('outside every property', 'live capture / packet sending (needs a network interface)'),
+ 'src/radiotap.cpp:332': ('outside every property', 'live capture / packet sending (needs a network interface)'),
+ 'src/radiotap.cpp:333': ('outside every property', 'live capture / packet sending (needs a network interface)'),
+ 'src/radiotap.cpp:355': ('outside every property', 'live capture / packet sending (needs a network interface)'),
+ 'src/icmpv6.cpp:270': ('outside every property', 'use_length_field() is a configuration switch; with it off the serializer still derives the length whenever RFC 4884 requires one, and no property says what the switch must do for shorter quoted datagrams'),
+ 'src/crypto.cpp:474': ('equivalent', 'a scratch array one element larger'),
+ 'src/crypto.cpp:475': ('equivalent', 'a scratch array one element larger'),
+ 'src/ipv6.cpp:157': ('outside every property', 'Jumbo Payload option handling: jumbograms exceed the 65535-octet domain of C01/C03; the unmodified code reads the jumbo length from the wrong stream and rejects or mis-sizes such packets anyway (memory-safe)'),
+ 'src/tcp_ip/stream.cpp:348': ('outside every property', 'stream recovery mode'),
+ 'src/dhcpv6.cpp:201': ('outside every property', "DHCPv6::matches_response for relay message types: C14's functional clause covers TCP/UDP/ICMP/ICMPv6/DNS replies, only memory safety applies to DHCPv6"),
+ 'src/icmpv6.cpp:50': ('equivalent', 'initial value of a member that every constructor path overwrites or that is only read after being set'),
+ 'src/crypto.cpp:332': ('equivalent under the claim', 'only the to-DS=from-DS=1 WEP case picks another address, for which the documentation names no association address (C09 installs the key under every pairing there)'),
+ 'src/utils/radiotap_writer.cpp:77': ('equivalent', 'differs only when no present word has any field; then both pointers are the end of the present words'),
+ 'src/dns.cpp:687': ('equivalent', 'upper bound handed to convert_records for the authority section, one octet further: the constructor has already walked every record of every section inside the buffer, so the bound is never reached'),
+ 'src/ipv6.cpp:358': ('outside every property', 'next-header value written behind the last extension header when NOTHING follows (the original writes 0; C03/C05 only claim tags when a payload follows)'),
+ 'src/rsn_information.cpp:132': ('equivalent', 'an RSN element of exactly 8 octets is rejected either way (the constructor then fails reading the AKM count), only the libtins exception type differs'),
+ 'src/tcp_ip/stream_follower.cpp:62': ('equivalent', 'initial last-cleanup time 1 us instead of 0'),
+ 'src/dns.cpp:574': ('equivalent', 'an MX record whose rdata is just the 2-octet preference has no exchange name and is malformed either way'),
+ 'src/eapol.cpp:49': ('outside every property', 'extract_metadata()'),
+ 'src/hw_address.cpp:45': ('equivalent', 'capacity hint of a string'),
+ 'src/tcp_ip/data_tracker.cpp:66': ('equivalent under the claim', "process_payload() then reports 'data added' also when nothing was added: callbacks that deliver nothing are explicitly outside C06/C07's claims (the delivered bytes are unchanged)"),
+ 'src/packet_writer.cpp:83': ('outside every property', "snapshot length written into the capture file's global header (65536 instead of 65535): records and timestamps are unchanged"),
+ 'src/rtp.cpp:46': ('equivalent', 'unsigned comparison with 0'),
+ 'src/utils/radiotap_parser.cpp:149': ('equivalent', 'member of the empty-buffer state, never read there'),
+ 'src/utils/radiotap_parser.cpp:56': ('caught when re-run', "C11 `C11:layout:length` - but only after 30 minutes: a zero-sized field makes every case crawl, and the campaign's run was cut off by its time limit"),
+ 'src/detail/sequence_number_helpers.cpp:41': ('equivalent', 'the equal case returns earlier'),
+ 'src/detail/icmp_extension_helpers.cpp:65': ('equivalent', 'at exactly 128 octets both branches look for the structure at offset 128'),
  "src/dns.cpp:252": ("equivalent", "fill value of the bytes inserted for a new record: all of them are overwritten by the record that is written right after"),
 }
 rows = []
